@@ -114,6 +114,7 @@ HASHES = {
     "sha1": lambda d: hashlib.sha1(d).digest(),
     "sha256": lambda d: hashlib.sha256(d).digest(),
     "md5list": lambda d: list(hashlib.md5(d).digest()[:4]),
+    "sha1padded": lambda d: hashlib.sha1(d).digest(), "crc32aligned": lambda d: zlib.crc32(d) & 0xFFFFFFFF,
 }
 
 
@@ -284,6 +285,10 @@ def mk(r):
         c = mk(a[1])
         c = (a[0] / c) if a[0] else c
         return c * a[2] if len(a) > 2 and a[2] else c
+    if k == "Slicing":                   # ["Slicing", sub, count, start, stop, step, empty]
+        return C.Slicing(mk(a[0]), a[1], a[2], a[3], a[4] if len(a) > 4 else 1, empty=a[5] if len(a) > 5 else None)
+    if k == "Indexing":                  # ["Indexing", sub, count, index, empty]
+        return C.Indexing(mk(a[0]), a[1], a[2], empty=a[3] if len(a) > 3 else None)
     if k == "RestreamData":
         return C.RestreamData(untag(a[0]) if isinstance(a[0], dict) else mkexpr(a[0]) if is_expr(a[0]) else mk(a[0]), mk(a[1]))
     if k == "Transformed":               # fixed menu of functions, by name
